@@ -25,7 +25,9 @@ REGISTRY = {
                      (A + "AggregateThm", "Api.Agg.agg_steps_pinned"), (A + "TypedDictKeysThm", "Api.typedDict_result_keys_nodup")],
         "partial": "C01_acceptU: acceptance <=> `conforms` on Ty.accU (unions of any shape at any depth, dependent_required included; sets, uniqueItems and field-level "
                    "fall_back_on_default outside) for data with distinct keys and no crash-prone leaf; C01_accept: the same on Ty.acc (a union is only Optional) "
-                   "for every datum with distinct keys; C01_image_partial: typed image on the index-keyed fragment",
+                   "for every datum with distinct keys; C01_image_partial: typed image on the index-keyed fragment; generic classes: the resolution of type arguments (single inheritance, "
+                   "fields declared again in subclasses) is a separate model (Generics) tied by its own correspondence, and the acceptance theorems speak about the resolved class; aggregate fields: the "
+                   "attribution of keys is proved (Aggregate), the acceptance of a class with aggregate fields is decided by the reference oracle and the twins, not by C01_acceptU",
         "assumptions": MODEL_ASSUMPTIONS,
     },
     "C02": {
